@@ -458,6 +458,7 @@ func InsertStmtFront(body *target.BlockStmt, stmt target.Stmt) {
 // end
 type forStmt struct {
 	init target.Stmt
+	pre  []target.Stmt // auto-generated assertions the condition needs: evaluated with it, in the body
 	cond target.Expr
 	body *target.BlockStmt
 	old  codeBlockCtx
@@ -473,7 +474,15 @@ func (p *forStmt) Then(cb *CodeBuilder, src ...ast.Node) {
 		}
 		p.cond = cond.Val
 	}
-	switch stmts := cb.clearBlockStmt(); len(stmts) {
+	stmts := cb.clearBlockStmt()
+	// The assertions emitted while the condition was built belong to the condition: they are
+	// evaluated before every iteration, not once as an init statement would be.
+	n := len(stmts)
+	for n > 0 && p.cond != nil && isAutoAssertStmt(stmts[n-1]) {
+		n--
+	}
+	stmts, p.pre = stmts[:n], stmts[n:]
+	switch len(stmts) {
 	case 0:
 		// nothing to do
 	case 1:
@@ -503,6 +512,13 @@ func (p *forStmt) End(cb *CodeBuilder, src ast.Node) {
 		cb.current.flows |= (flows &^ (flowFlagBreak | flowFlagContinue))
 		p.body = &target.BlockStmt{List: stmts}
 		cb.endBlockStmt(&p.old)
+	}
+	if len(p.pre) > 0 {
+		// for init; ; post { pre; if !cond { break }; body }
+		list := make([]target.Stmt, 0, len(p.pre)+1+len(p.body.List))
+		list = append(append(list, p.pre...), breakIfNotStmt(p.cond))
+		p.body = &target.BlockStmt{List: append(list, p.body.List...)}
+		p.cond = nil
 	}
 	cb.emitStmt(&target.ForStmt{
 		Init: checkHeaderStmt(p.init), Cond: checkHeaderExpr(p.cond), Post: checkHeaderStmt(post), Body: p.handleFor(p.body, 0),
